@@ -8,10 +8,13 @@ yield point and restarted on the same or an emptied LMDB; every stored blob is d
 previous newest one; the guard "own old snapshot merged before anything is stored" is evaluated on the real run.
 """
 import loopx
+from props import c12
 
 
 def run(c):
     loopx.run_suite(c, 'C05', with_window=False)
+    # cleaners: what a cleaning run may delete (Cleaner.tla), replayed on the real cleaner.Worker
+    c12.run_cfg(c, 'Cleaner.cfg', 1, 2, 20000 if c.tier == 'thorough' else 2000, 16)
     c.assumptions += ['application writes are monotone per key per instance', 'versions that arrived from another instance stay available in that instance\'s snapshot',
                       'cleaner interaction is decided by the Cleaner model (C12): it never deletes an instance\'s newest snapshot unless stale and committed']
     c.extra['rule'] = 'simulated LSLoop behaviours with crashes/restarts and Store faults replayed on the real loop'
